@@ -6,6 +6,7 @@ Import ListNotations.
 Local Open Scope N_scope.
 
 Section Step.
+  Variable tbl : htable.
   Variable pre : ostate.
   Variable s : step.
   Variable o : sobs.
@@ -85,20 +86,39 @@ Section Step.
       | None => false
       end) clashes.
 
+  (** "Whenever an unpaused ObjectDeployment's template is not matched by its newest ObjectSet, exactly one new ObjectSet is
+      created" (existence; this is also "rolling back to an earlier template yields a new revision"): a complete, fault-free
+      pass with a fresh List of an unpaused deployment with phases, all revisions reported, whose newest ObjectSet neither
+      has the template's spec nor carries the template's hash, sends a Create (answered Created, or AlreadyExists ->
+      slow cache / collision bump). *)
+  Definition m07_progress : bool :=
+    match s with
+    | SDep false None =>
+        negb (match so_res o with OrDone => true | _ => false end) || d_paused (st_dep pre) || is_nil (d_phases (st_dep pre)) ||
+        existsb (fun x => Z.eqb (srev x) 0) (my_sets pre) ||
+        match rev (isort rev_lt (isort name_lt (my_sets pre))) with
+        | x :: _ => list_eqb phase_eqb (os_phases (ds_set x)) (d_phases (st_dep pre)) ||
+                    option_eqb N.eqb (ds_hash x) (Some (table_hash tbl (d_digest (st_dep pre)) (d_cc (st_dep pre))))
+        | [] => false
+        end ||
+        existsb (fun e => match e with DCreate _ _ _ _ _ => true | _ => false end) (so_events o)
+    | _ => true
+    end.
+
   Definition step_monitors07 : list bool :=
     match s with
-    | SDep _ _ => [m07_spec; m07_prev; m07_unique; m07_monotone; m07_stable; m07_noreuse]
-    | _ => [true; true; m07_unique; m07_monotone; m07_stable; true]
+    | SDep _ _ => [m07_spec; m07_prev; m07_unique; m07_monotone; m07_stable; m07_noreuse; m07_progress]
+    | _ => [true; true; m07_unique; m07_monotone; m07_stable; true; true]
     end.
 End Step.
 
-Fixpoint run_monitors07 (pre : ostate) (steps : list step) (obs : list sobs) : list (list bool) :=
+Fixpoint run_monitors07 (tbl : htable) (pre : ostate) (steps : list step) (obs : list sobs) : list (list bool) :=
   match steps, obs with
-  | s :: steps', o :: obs' => step_monitors07 pre s o :: run_monitors07 (obs_state o) steps' obs'
+  | s :: steps', o :: obs' => step_monitors07 tbl pre s o :: run_monitors07 tbl (obs_state o) steps' obs'
   | _, _ => []
   end.
 
-Definition monitors07 (c : dcase) : list (list bool) := run_monitors07 (init_state c) (dc_steps c) (dc_obs c).
+Definition monitors07 (c : dcase) : list (list bool) := run_monitors07 (dc_table c) (init_state c) (dc_steps c) (dc_obs c).
 
 (** "Whenever the template is not matched by its newest ObjectSet, exactly one new ObjectSet is created": along the
     history, at most one ObjectSet is created per template change (and none before the first change if the newest
@@ -121,10 +141,10 @@ Fixpoint one_per_change (budget : bool) (pre : ostate) (steps : list step) (obs 
 Definition m07_one (c : dcase) : bool := one_per_change (negb (matched0 c)) (init_state c) (dc_steps c) (dc_obs c).
 
 (** agree; spec = template & not while paused/empty; previous complete & no unreported sibling; exactly one;
-    revisions unique; increasing; stable; no reuse on a clash *)
+    revisions unique; increasing; stable; no reuse on a clash; unmatched template => Create *)
 Definition judge07 (c : dcase) : list bool :=
   let m := monitors07 c in
-  [agree c; column 0 m; column 1 m; m07_one c; column 2 m; column 3 m; column 4 m; column 5 m].
+  [agree c; column 0 m; column 1 m; m07_one c; column 2 m; column 3 m; column 4 m; column 5 m; column 6 m].
 
 (** * Soundness of the per-pass creation monitors on the model (any hash function, any fault, any variant; fresh List). *)
 From PKO Require Import BaseProofs DeploymentProofs.
@@ -141,12 +161,12 @@ Proof.
   destruct e as [n0 p0 v0 h0 cr| | |]; try contradiction. destruct cr; try contradiction; destruct H as [H|[]]; injection H as <- <- <- <-; eauto.
 Qed.
 
-Theorem monitor_sound_create hash fault slices sliceaware rev0ok w w' evs r :
-  NoDup (map sname (dw_sets w)) -> dep_pass hash fault slices sliceaware rev0ok false w = (w', evs, r) ->
+Theorem monitor_sound_create hash fault slices w w' evs r :
+  NoDup (map sname (dw_sets w)) -> dep_pass hash fault slices false w = (w', evs, r) ->
   m07_spec (state_of w) (obs_of w' evs r) = true /\ m07_prev (state_of w) (obs_of w' evs r) = true.
 Proof.
   intros Hnd Hp. split; apply forallb_forall; intros [[[n phs] prev] h] Hc; destruct (creates_in _ _ _ _ _ Hc) as (cr & Hi); cbn [so_events obs_of] in Hi;
-    destruct (create_justified hash fault slices sliceaware rev0ok false w w' evs r n phs prev h cr Hnd Hp Hi) as (Hpa & Hph & Hn0 & _ & _ & _ & -> & ->).
+    destruct (create_justified hash fault slices true true false w w' evs r n phs prev h cr Hnd Hp Hi) as (Hpa & Hph & Hn0 & _ & _ & _ & -> & ->).
   - cbn [st_dep state_of]. rewrite Hpa. cbn [negb andb]. rewrite (list_eqb_refl _ phase_eqb_refl).
     destruct (d_phases (dw_dep w)); [now elim Hph|reflexivity].
   - apply forallb_forall. intros x Hx. unfold my_sets, mine in Hx. apply filter_In in Hx. cbn [st_sets state_of] in Hx.
